@@ -315,8 +315,6 @@ def simplify(e):
             out['base'] = b['e']
     elif k == 'deref':
         b = out['e']
-        while isinstance(b, dict) and b.get('k') == 'load' and 'e' in b:
-            b = b['e']
         if isinstance(b, dict) and b.get('k') == 'addr':
             return b['e']
     return out
@@ -801,31 +799,6 @@ def copy_propagate(fn, max_expr=40):
         inner = r
         while isinstance(inner, dict) and inner.get('k') in ('cast', 'load'):
             inner = strip_load(inner['e'])
-        if isinstance(inner, dict) and inner.get('k') == 'addr':
-            # a cached address `p = &V->f.g` / `&V.f` / `&V->a[i]`: valid while the variables it is computed
-            # from are unchanged (it reads no memory), so it survives calls and stores to memory
-            def apath(x):
-                x = strip_load(x)
-                while isinstance(x, dict) and x.get('k') in ('cast',):
-                    x = strip_load(x['e'])
-                if not isinstance(x, dict):
-                    return False
-                if x.get('k') == 'var':
-                    return True
-                if x.get('k') == 'member':
-                    b_ = strip_load(x['base'])
-                    if x.get('arrow'):
-                        while isinstance(b_, dict) and b_.get('k') == 'cast':
-                            b_ = strip_load(b_['e'])
-                        return isinstance(b_, dict) and b_.get('k') == 'var'
-                    return apath(x['base'])
-                if x.get('k') == 'index':
-                    i_ = strip(x['idx'])
-                    return apath(x['base']) and isinstance(i_, dict) and i_.get('k') in ('int', 'var')
-                return False
-            if apath(inner['e']) and ('var', name) not in _keys_read(rhs):
-                return True
-            return False
         if not isinstance(inner, dict) or inner.get('k') == 'var' or not path(rhs):
             return False
         if ('var', name) in _keys_read(rhs):
@@ -864,13 +837,7 @@ def copy_propagate(fn, max_expr=40):
             S = frozenset(x for x in S if not (x[2] & kills) and ('var', x[0]) not in kills)
         d = defn(e)
         if d and usable(d[1], d[0]):
-            kr = _keys_read(d[1])
-            r0 = d[1]
-            while isinstance(r0, dict) and r0.get('k') in ('cast', 'load'):
-                r0 = r0['e']
-            if isinstance(r0, dict) and r0.get('k') == 'addr':
-                kr = {k_ for k_ in kr if k_[0] == 'var'}        # an address reads no memory
-            S = frozenset(x for x in S if x[0] != d[0]) | {(d[0], json.dumps(d[1], sort_keys=True), frozenset(kr))}
+            S = frozenset(x for x in S if x[0] != d[0]) | {(d[0], json.dumps(d[1], sort_keys=True), frozenset(_keys_read(d[1])))}
         return S
 
     _, ev_in = forward(fn, frozenset(), transfer, lambda a, b: a & b)
@@ -880,9 +847,6 @@ def copy_propagate(fn, max_expr=40):
         avail = {v: ex for (v, ex, _) in S}
         if not avail:
             return x
-        return simplify(_rewrite1(x, avail))
-
-    def _rewrite1(x, avail):
         def r(nd):
             if nd.get('k') == 'load':
                 inner = nd.get('e')
@@ -903,13 +867,7 @@ def copy_propagate(fn, max_expr=40):
                 v = strip_load(e['e'])
                 if isinstance(v, dict) and v.get('k') == 'var' and any(v['name'] == x[0] for x in S):
                     ex = [x[1] for x in S if x[0] == v['name']][0]
-                    nx = strip_load(json.loads(ex))
-                    y_ = nx
-                    while isinstance(y_, dict) and y_.get('k') == 'cast':
-                        y_ = strip_load(y_['e'])
-                    if isinstance(y_, dict) and y_.get('k') == 'addr':
-                        continue          # reading a local that holds an address is not a memory access
-                    e['e'] = nx
+                    e['e'] = strip_load(json.loads(ex))
                     e['e']['_was'] = v['name']
                     n[0] += 1
                 else:
